@@ -1,6 +1,7 @@
 package main
 
 import (
+	"strconv"
 	"encoding/hex"
 	"fmt"
 	"strings"
@@ -164,6 +165,13 @@ func runC09(c *Ctx) {
 				v := genVal(r, sc.Cols[col])
 				if sc.Cols[col].Typ == 'i' && v.K == 'i' {
 					v.I += 100 // a value no statement of the program produces
+				}
+				if cells := cur[key]; sc.Cols[col].Typ == 'i' && col < len(cells) && strings.HasPrefix(cells[col], "i") {
+					// beyond 2^53 the neighbouring integer is another number, though not another float64
+					if n, err := strconv.ParseInt(cells[col][1:], 10, 64); err == nil && (n >= 1<<53 || n <= -(1<<53)) {
+						v = ATVal{K: 'i', I: n + 1}
+						c.Out.Count("foreign.adjacent-beyond-2p53")
+					}
 				}
 				if cells := cur[key]; sc.Cols[col].Typ == 's' && col < len(cells) && strings.HasPrefix(cells[col], "s") {
 					// a text that reads as a number is changed into another text for the same number ("7" -> "007")
